@@ -1,5 +1,7 @@
 //! Shared pieces of the correspondence harness: one PRNG, hex, small helpers.
 pub mod respgen;
+pub mod connrun;
+pub mod conngen;
 
 /// splitmix64 — every random choice of a run derives from one state seeded by VERIF_SEED.
 #[derive(Clone)]
